@@ -72,6 +72,11 @@ POOLS = {
     "make_private": [["a"], ["_a"], [""], ["__a"], ["A_b"]],
     "coerce_response_name": [["$resp"], ["$resp.name"], ["x.$resp"], ["$resp$resp"], ["resp"], [""]],
     "address_resolve": [[pk, sel] for pk in ([], ["acme"], ["acme", "lib", "v1"]) for sel in ("Book", "a.Book", ".Book", "", ".", "Outer.Inner", "Book.")],
+    **{k: [[b, n] for b in (False, True) for n in ("Library", "Import", "IAMPolicy", "", "_X", "lib")] for k in ("service_client_name", "service_async_client_name")},
+    **{k: [[n] for n in ("Library", "Import", "IAMPolicy", "Books2Go", "", "_X", "library", "A")]
+       for k in ("service_transport_name", "service_grpc_transport_name", "service_grpc_asyncio_transport_name", "service_rest_transport_name", "service_module_name")},
+    "naming_module_name": [["Lib"], ["Cloud Vision"], ["a-b"], ["x.y"], [""], ["Fancy $Name"], ["import"]],
+    **{k: [[m, v] for m in ("lib", "cloud_vision", "") for v in ("v1", "", "v1p1beta1")] for k in ("new_naming_versioned_module_name", "old_naming_versioned_module_name")},
     "metadata_doc": [[" lead \n", " trail", [" d1\n", " d2\n"]], ["", " trail \n\n", [" d"]], ["", "", [" d1\n", "", " d3 "]], ["", "", []], ["   ", "t", ["d"]],
                      ["", "  ", ["d"]], [" a\n b\n", "", []], ["", "", [""]], ["x", "y", ["z"]]],
 }
@@ -93,6 +98,12 @@ GENS = {
     "make_private": lambda r: [rand_str(r, 5, ws=False)],
     "coerce_response_name": lambda r: ["".join(r.pick(["$resp", ".", "a", "$", "resp", "_"]) for _ in range(r.randint(0, 5)))],
     "address_resolve": lambda r: [[r.pick(["acme", "lib", "v1", "a", "x_y"]) for _ in range(r.randint(0, 3))], rand_str(r, 6, ws=False)],
+    **{k: (lambda r: [r.maybe(), rand_str(r, 8, ws=False)]) for k in ("service_client_name", "service_async_client_name")},
+    **{k: (lambda r: [rand_str(r, 8, ws=False)]) for k in ("service_transport_name", "service_grpc_transport_name", "service_grpc_asyncio_transport_name",
+                                                       "service_rest_transport_name")},
+    "service_module_name": lambda r: ["".join(r.pick(["Get", "IAM", "Policy", "2FA", "V2", "Http", "x", "List", "Id", "A", "B1", "_", "foo"]) for _ in range(r.randint(0, 4)))],
+    "naming_module_name": lambda r: [rand_str(r, 10, ws=False)],
+    **{k: (lambda r: [rand_str(r, 6, ws=False), r.pick(["", "v1", "v2beta1", rand_str(r, 4, ws=False)])]) for k in ("new_naming_versioned_module_name", "old_naming_versioned_module_name")},
     "metadata_doc": lambda r: [r.pick(["", "", rand_str(r, 8)]), r.pick(["", rand_str(r, 8)]), [rand_str(r, 6) for _ in range(r.randint(0, 3))]],
 }
 
@@ -115,6 +126,23 @@ def call_real(name, meta, args):
     if name == "routing_param_disambiguated_field":
         from gapic.schema import wrappers
         return wrappers.RoutingParameter(field=args[0], path_template="").disambiguated_field
+    if name.startswith("service_"):
+        from gapic.schema import wrappers
+        import types as _t
+        prop = getattr(wrappers.Service, meta["qual"].split(".")[-1])
+        fget = prop.fget if isinstance(prop, property) else prop.func      # property or utils.cached_property
+        if len(args) == 2:
+            return fget(_t.SimpleNamespace(is_internal=args[0], name=args[1]))
+        return fget(_t.SimpleNamespace(name=args[0]))
+    if name == "naming_module_name":
+        from gapic.schema import naming
+        import types as _t
+        return naming.Naming.module_name.fget(_t.SimpleNamespace(name=args[0]))
+    if name in ("new_naming_versioned_module_name", "old_naming_versioned_module_name"):
+        from gapic.schema import naming
+        import types as _t
+        cls = naming.NewNaming if name.startswith("new") else naming.OldNaming
+        return cls.versioned_module_name.fget(_t.SimpleNamespace(module_name=args[0], version=args[1]))
     if name == "metadata_doc":
         from gapic.schema import metadata
         from google.protobuf import descriptor_pb2
